@@ -247,7 +247,7 @@ def run(ctx):
             check(ctx, log, text, text, '\n' in text or '\u2028' in text, 'lexical_product')
             ctx.hit('lexical_product')
 
-        nprog = ctx.pick(160, 2600)
+        nprog = ctx.per_shard(160, 2600)
         max_subsets = ctx.pick(16, 64)
 
         def opts_fn(i, r):
